@@ -436,7 +436,10 @@ Section GovProofs.
         destruct (existsb (fun e : N * N => fst e =? x) (h_elect (p_hdr p))); [|apply IH; exact Hacc].
         cbn [d_avail_voted cfg_fixed].
         match goal with |- context[if ?c then Ok s0 else _] => destruct c end; [apply IH; exact Hacc|].
-        destruct (update_avail sem cfg_fixed rec s0 i (if inc then wrap64 (p_avail p + 1) else wrap64 (p_avail p + W64 - 1))) as [s1|c] eqn:Eu.
+        cbn [d_logout_inc cfg_fixed negb andb].
+        destruct (get_prop s0 i) as [q|]; [|apply IH; exact Hacc].
+        destruct (2 <=? p_status q); [apply IH; exact Hacc|].
+        destruct (update_avail sem cfg_fixed rec s0 i (if inc then wrap64 (p_avail q + 1) else wrap64 (p_avail q + W64 - 1))) as [s1|c] eqn:Eu.
         + apply IH. eapply ext_trans; [exact Hacc|]. eapply update_avail_ext; exact Eu.
         + rewrite cascade_fold_fail. discriminate.
     Qed.
